@@ -165,3 +165,47 @@ def lib_score_matrix(ctx, d, est, gt, tr):
                 continue
             out[(i, j)] = float(cls(estimated_object=e, ground_truth_object=g, transforms=tr).value)
     return out
+
+
+def ref_score(d, e, g):
+    """Reference score(s) of a same-frame pair under d["mode"], from the descriptors only (vlib.ref_geom): a list of
+    acceptable values (plane distance may have several tie-consistent values), or None when no reference applies
+    (boxes with roll / pitch under an IoU mode)."""
+    mode = d["mode"]
+    if mode == "CENTERDISTANCE":
+        return [ref_center_distance(d, e, g)]
+    if d["dim"] == 2:
+        from vlib import mgrlib as MG
+
+        return [float(MG.roi_iou(e["roi"], g["roi"]))] if mode == "IOU2D" else None
+    if (e.get("pr") and any(e["pr"])) or (g.get("pr") and any(g["pr"])):
+        return None
+    if mode == "PLANEDISTANCE":
+        return list(ref_plane_distance(e, g))
+    be, bg = D.ego_box(e), D.ego_box(g)
+    if mode == "IOU2D":
+        return [G.box_iou_bev(be, bg)]
+    return [G.box_iou_3d(be, e["p"][2], e["size"][2], bg, g["p"][2], g["size"][2])]
+
+
+def check_scores_against_reference(ctx, d, scores, limit=60):
+    """The scores the matcher ranks by must be the true scores of the pairs (the statement's "best-scoring"): every
+    candidate score of the library is compared with the reference geometry (first `limit` pairs of a case)."""
+    from checks import c06
+
+    for k, ((i, j), s) in enumerate(scores.items()):
+        if k >= limit:
+            break
+        e, g = d["est"][i], d["gt"][j]
+        ref = ref_score(d, e, g)
+        if ref is None:
+            continue
+        tol = 1e-6 + 1e-9 * max(abs(s), 1.0)
+        if any(abs(s - r) <= tol for r in ref):
+            continue
+        if d["dim"] == 3 and d["mode"] in ("IOU2D", "IOU3D") and c06.near_coincident(e, g):
+            ctx.boundary()  # known finding D19 (C06): collinear overlapping edges
+            continue
+        ctx.violate(f"candidate-score-wrong:{d['mode']}", f"the matcher's {d['mode']} score of (est #{i}, GT #{j}) is {s}, the pair's true score is {ref} ({e.get('p', e.get('roi'))} / {g.get('p', g.get('roi'))})")
+        return False
+    return True
